@@ -333,7 +333,8 @@ func (p *Prog) isRestoreFunc(g *ssa.Function) bool {
 	for _, s := range fsSinkSites(sortedFuncs(p.reach(g))) {
 		cls[s.Sink.Class] = true
 	}
-	return cls["chmod"] && cls["chtimes"]
+	// a restore proper sets mode and times and materialises nothing
+	return cls["chmod"] && cls["chtimes"] && !cls["create"] && !cls["mkdir"] && !cls["symlink"] && !cls["link"] && !cls["write"]
 }
 
 func ruleRestore(id string) func(*Checker) {
@@ -356,7 +357,7 @@ func ruleRestore(id string) func(*Checker) {
 				return false
 			}
 			for _, a := range cl.Call.Args {
-				if canon(a) == u.Info {
+				if canon(a) == u.Info || p.canonX(a) == u.Info {
 					return true
 				}
 			}
@@ -382,7 +383,7 @@ func ruleRestore(id string) func(*Checker) {
 				}
 			}
 			ncopy++
-			ok, off := mustPassOK(call, isRestore, func(r *ssa.Return) bool {
+			ok, off := p.mustPassIP(U, v.Inner, isRestore, func(r *ssa.Return) bool {
 				return !mayReturnNilErr(r)
 			}, func(in ssa.Instruction) bool {
 				// reading the next header without having restored = the pairing is broken
@@ -790,12 +791,15 @@ func ruleMeta(id string) func(*Checker) {
 			case "os.Chmod":
 				if k, isC := constInt(args[1]); isC {
 					// transient mode: must be followed by a restore
-					call, _ := u.siteOf(s.Call).(*ssa.Call)
 					ok := false
-					if call != nil {
-						ok, _ = mustPassOK(call, func(in ssa.Instruction) bool {
+					if in, isCall := s.Call.(*ssa.Call); isCall {
+						ok, _ = p.mustPassIP(u.Unpack, in, func(in ssa.Instruction) bool {
 							cl, ok := in.(*ssa.Call)
-							return ok && p.isRestoreFunc(cl.Common().StaticCallee())
+							if !ok {
+								return false
+							}
+							g := cl.Common().StaticCallee()
+							return p.isRestoreFunc(g)
 						}, func(r *ssa.Return) bool { return len(successReturnsOf(r)) == 0 }, nil)
 					}
 					c.check(ok, id, fn, fmt.Sprintf("Chmod constant %#o", k), pos, "transient mode; every non-error path then restores the recorded mode", "a constant mode is applied to an entry and not replaced by the recorded one")
@@ -896,6 +900,14 @@ func ruleC02Omit(c *Checker) {
 				okE, _ := okEdgesOfCall(wh)
 				if guarded(r.Block(), okE) {
 					afterWrite = true
+				}
+			}
+			// returning the result of the call that writes the header (a private helper) is the normal end too
+			for _, v := range returnValues(r, 0) {
+				for _, wh := range w.WriteHeaders {
+					if v != nil && canon(v) == ssa.Value(wh) {
+						afterWrite = true
+					}
 				}
 			}
 			if afterWrite {
